@@ -53,7 +53,7 @@ func vPick() vAlg {
 func vPickNoKW() vAlg {
 	var idx []int
 	for i, a := range vSymAlgs {
-		if !a.kw && (zzverif.Thorough() || i == 0 || i == 5 || i == 6 || i == 9 || i == 15 || i == 16) {
+		if !a.kw && (zzverif.Thorough() || i == 0 || i == 5 || i == 6 || i == 9 || i >= 15) { // every AEAD family, all four ChaCha names
 			idx = append(idx, i)
 		}
 	}
